@@ -212,6 +212,8 @@ class ZoneAnalysis:
         self.vname[n] = e.get('name')
         return n
 
+    _bdef_vars = {}
+
     def _scan_decls(self):
         for bid, i, s in self.fn.stmts():
             s_ = strip(s)
@@ -326,7 +328,7 @@ class ZoneAnalysis:
 
     def copy_state(self, st):
         out = dict(z=st['z'].copy(), ptr=dict(st['ptr']), cf={k: v for k, v in st['cf'].items()})
-        for extra in ('defs', 'filled', 'retlin', 'sizes', 'ub', 'ret_ub', 'zero_tail', 'vec_src', 'bit_ext'):
+        for extra in ('defs', 'bdefs', 'filled', 'retlin', 'sizes', 'ub', 'ret_ub', 'zero_tail', 'vec_src', 'bit_ext'):
             if extra in st:
                 out[extra] = dict(st[extra])
         if 'dirty' in st:
@@ -343,6 +345,8 @@ class ZoneAnalysis:
         out = dict(z=a['z'].join(b['z']), ptr=ptr, cf=cf)
         da, db = a.get('defs', {}), b.get('defs', {})
         out['defs'] = {k: v for k, v in da.items() if k in db and repr(db[k]) == repr(v)}
+        ba, bb = a.get('bdefs', {}), b.get('bdefs', {})
+        out['bdefs'] = {k: v for k, v in ba.items() if k in bb and bb[k] is v}
         sa, sb = a.get('sizes', {}), b.get('sizes', {})
         out['sizes'] = {k: v for k, v in sa.items() if k in sb and repr(sb[k]) == repr(v)}
         ua, ub_ = a.get('ub', {}), b.get('ub', {})
@@ -400,6 +404,8 @@ class ZoneAnalysis:
 
     def kill_var(self, st, n):
         st['z'].forget(n)
+        if st.get('bdefs'):
+            st['bdefs'] = {k: v for k, v in st['bdefs'].items() if k != n and n not in self._bdef_vars.get(id(v), ())}
         if st.get('defs'):
             st['defs'] = {k: v for k, v in st['defs'].items() if k != n and n not in (v.x, v.y)}
         if st.get('ub'):
@@ -702,6 +708,16 @@ class ZoneAnalysis:
         # call results with conditional facts
         r = strip_expect(rhs)
         self.kill_var(st, n)
+        if typ.replace('const ', '').strip() in ('bool', '_Bool') and r is not None and \
+                ((r.get('k') == 'bin' and r.get('op') in ('<', '<=', '>', '>=', '==', '!=', '&&', '||')) or (r.get('k') == 'un' and r.get('op') == '!')) and \
+                not any(x.get('k') in ('call', 'ctor') or (x.get('k') == 'bin' and x.get('op') in ('=', '+=', '-=')) or (x.get('k') == 'un' and x.get('op') in ('++', '--')) for x in walk(r)):
+            vs_ = set(self.v(x) for x in walk(r) if x.get('k') == 'ref' and x.get('dk') in ('local', 'param'))
+            if n not in vs_:
+                if not hasattr(self, '_bdef_vars'):
+                    self._bdef_vars = {}
+                self._bdef_vars[id(r)] = vs_
+                st['bdefs'] = dict(st.get('bdefs', {}))
+                st['bdefs'][n] = r
         if r is not None and r.get('k') == 'call' and id(r) in st.get('ret_ub', {}):
             ub = st['ret_ub'].pop(id(r))
             if ub is not None:
@@ -930,6 +946,10 @@ class ZoneAnalysis:
             sense = not sense
             c = strip_expect(c['e'])
         k = c.get('k')
+        if k == 'ref' and c.get('dk') in ('local', 'param'):
+            bd = st.get('bdefs', {}).get(self.v(c))
+            if bd is not None:
+                return self.refine(bd, sense, st)       # a bool local that names a condition: the condition itself
         if k == 'bin' and c['op'] in ('&&', '||'):
             conj = (c['op'] == '&&') == sense
             if conj:
